@@ -82,7 +82,9 @@ class HistoryRunner:
                 'src': rng.choice(self.src_pool) if rng.random() < 0.25 else None,
                 'recv_port': rng.choice(self.ports) if rng.random() < 0.2 else None,
                 'template': gen.rand_template(rng),
-                'nparams': rng.choice([4, 4, 4, 4, 2, 1])}
+                'nparams': rng.choice([4, 4, 4, 'var', 3, 2, 1])}
+        if rng.random() < 0.1:
+            spec['path_arg'] = path[1:]     # documented: a leading '/' is added
         if rng.random() < 0.22:
             # fault sequence: the function raises on its k-th invocation(s)
             spec['raises'] = [rng.choice([[1], [1], [2], [1, 2], [1, 3], list(range(1, 40))]),
@@ -99,7 +101,8 @@ class HistoryRunner:
         src = NetAddr(spec['src'][0], spec['src'][1]) if spec['src'] else None
         ctor = OscFunc.matching if spec['kind'] == 'match' else OscFunc
         self.real_fver[rid] = 0
-        self.objs[rid] = ctor(self.rig.make_cb(rid, 0, spec['nparams']), spec['path'],
+        self.objs[rid] = ctor(self.rig.make_cb(rid, 0, spec['nparams']),
+                              spec.get('path_arg', spec['path']),
                               src, spec['recv_port'],
                               arg_template=real_template(spec['template']))
         self.objs[rid]._vf_nparams = spec['nparams']
@@ -142,7 +145,7 @@ class HistoryRunner:
                 return False
             obj.one_shot()
         elif name == 'set_func':
-            if freed or getattr(obj, '_vf_one_shot', False):
+            if freed:
                 return False
             self.real_fver[rid] += 1
             obj.func = self.rig.make_cb(rid, self.real_fver[rid], obj._vf_nparams)
@@ -225,6 +228,9 @@ class HistoryRunner:
             if obj is None or bool(obj.enabled) == bool(r.enabled):
                 continue
             self.acc.count('enabled_flag_mismatches')
+            if r.spent and obj.enabled and r.replaced_after_one_shot:
+                self.violation('C18/one-shot-lost-by-function-replacement', rid=rid,
+                               observed='enabled is True ' + when)
             if r.spent and obj.enabled:
                 self.violation('C18/one-shot-still-enabled-after-firing', rid=rid,
                                observed='enabled is True ' + when,
@@ -463,6 +469,10 @@ class HistoryRunner:
                                if why == 'TRAILING-MINUS' else 'C18/missed-invocation/' + why,
                                rid=rid, msg=_j([addr] + args), sender=sender, port=port,
                                invoked=[e[1] for e in invs])
+            if v == 'not' and c == 1 and r.spent and r.replaced_after_one_shot:
+                self.violation('C18/one-shot-lost-by-function-replacement', rid=rid,
+                               observed='invoked again after it fired',
+                               msg=_j([addr] + args))
             if v == 'not' and c == 1:
                 why = m.why_not(r, addr, args, sender, port)
                 self.violation(pattern_key(True, why[8:]) if why.startswith('pattern/')
@@ -487,7 +497,8 @@ class HistoryRunner:
             if a is not None:
                 import ipaddress
                 if a[0] != sender[0] or a[2] != sender[1] \
-                        or a[1] != int(ipaddress.IPv4Address(sender[0])) or p != port:
+                        or a[1] != int(ipaddress.IPv4Address(sender[0])) \
+                        or (p is not None and p != port):
                     self.violation('C18/wrong-args/sender-or-port', got=[a, p],
                                    expected=[sender, port])
         # order within one path of one dispatcher
@@ -561,6 +572,7 @@ class HistoryRunner:
                         op = ('create', self._new_spec())
                         if rng.random() < 0.6:
                             op[1]['path'], op[1]['kind'] = h.path, h.kind
+                            op[1].pop('path_arg', None)
                     elif k.endswith('-self'):
                         op = (k[:-5], h.rid)
                     else:
@@ -576,8 +588,6 @@ class HistoryRunner:
                         if not cands:
                             continue
                         t = rng.choice(cands)
-                    if name == 'set_func' and t.one_shot:
-                        continue          # outside the domain (see RULE)
                     if name == 'set_perm':
                         self.top_op(('set_perm', t.rid, rng.random() < 0.7))
                     else:
@@ -593,10 +603,19 @@ class HistoryRunner:
                 res = self.rig.deliver(d, self.senders[0], None, udp=self.udp)
                 self.check_delivery(d, [(None, p, [1, 2, 'hello'])], res)
                 self.acc.count('epilogue_probes')
+            # residue: a freed responder must not stay registered with CmdPeriod
+            from sc3.base.systemactions import CmdPeriod
+            mine = {id(o) for o in self.objs.values()}
+            left = [a for a in CmdPeriod._actions
+                    if id(getattr(a, '__self__', None)) in mine]
+            self.acc.count('cmdperiod_residue_checks')
+            if left:
+                self.violation('C18/cmdperiod-residue/freed-responder-still-registered',
+                               count=len(left))
             return True
         except Stop:
-            return False
-        finally:
+            # state unknown after a violation: leave nothing behind for the
+            # next history of this process
             self.rig.on_invoke = None
             self.armed.clear()
             for rid, obj in self.objs.items():
@@ -605,11 +624,17 @@ class HistoryRunner:
                 except Exception:
                     pass
             try:
-                # bound methods of dead responders accumulate here otherwise
                 from sc3.base.systemactions import CmdPeriod
-                CmdPeriod.remove_all()
+                for a in [a for a in CmdPeriod._actions
+                          if any(getattr(a, '__self__', None) is o
+                                 for o in self.objs.values())]:
+                    CmdPeriod.remove(a)
             except Exception:
                 pass
+            return False
+        finally:
+            self.rig.on_invoke = None
+            self.armed.clear()
 
 
 def _j(x):
